@@ -115,6 +115,7 @@ type c02Sim struct {
 	shut           *simkit.Task
 	nextID         int
 	fifoUnreliable bool
+	soleWaiter     *c02Prod // the only producer blocked for space at the previous quiescence (nil if none or several)
 }
 
 type c02Cfg struct {
@@ -672,6 +673,21 @@ func (s *c02Sim) observe(ev string) {
 				if p.req != nil && p.lastSite == "cond.wait" && !p.cancelled && p.req.size <= cfg.Cap {
 					r.Failf("lost-wakeup", "blocked-on-empty", "producer p%d still blocked for space (r%03d size %d) while the queue is empty", p.id, p.req.id, p.req.size)
 				}
+			}
+		}
+	}
+	// 6. a single waiter is released by the completion that frees enough space for it
+	if strings.HasPrefix(ev, "done-") && s.soleWaiter != nil && s.shut == nil && len(s.yg.Parked()) == 0 {
+		p := s.soleWaiter
+		if p.req != nil && !p.task.Done() && p.lastSite == "cond.wait" && !p.cancelled && size+p.req.size <= cfg.Cap {
+			r.Failf("lost-wakeup", "single-waiter-not-released", "producer p%d is the only one waiting for space; a request finished and reported size %d + %d <= capacity %d, but it is still blocked", p.id, size, p.req.size, cfg.Cap)
+		}
+	}
+	s.soleWaiter = nil
+	if nblocked == 1 && len(s.yg.Parked()) == 0 {
+		for _, p := range s.prods {
+			if p.req != nil && !p.task.Done() && p.lastSite == "cond.wait" && p.passed {
+				s.soleWaiter = p
 			}
 		}
 	}
